@@ -51,7 +51,7 @@ def cases(c):
                 out.append({'rel': rel, 'cls': cls, 'p': params, 'N': N, 'NFFT': NFFT, 'm': m,
                             'kind': gen.pick(rng, ['noise', 'tones', 'ar', 'trend']), 'fs': gen.pick(rng, [1.0, 2.0, 100.0]),
                             'cplx': 0 if rel == 'half' else (1 if rel in ('shift', 'conj') else int(rng.integers(0, 2))),
-                            'j': j})
+                            'reuse': ((j // 3) % 4) if j % 3 == 1 else None, 'j': j})
     return out
 
 
@@ -73,7 +73,10 @@ def run_case(c, d):
     log = []
     for role, data in (('x', x), (rel, y)):
         try:
-            p = E.build(cls, d['p'], data, NFFT=NFFT, fs=d['fs'], scale=False)
+            if d.get('reuse') is not None and role != 'x':
+                p = E.build_reused(cls, d['p'], data, NFFT=NFFT, fs=d['fs'], scale=False, salt=d['reuse'])
+            else:
+                p = E.build(cls, d['p'], data, NFFT=NFFT, fs=d['fs'], scale=False)
             log.append({'role': role, 'psd': np.asarray(p.psd), 'sides': p.sides, 'error': None})
         except Exception as exc:
             log.append({'role': role, 'psd': None, 'error': exc})
